@@ -62,6 +62,8 @@ class Gen:
             is_sub = allow_sub and depth > 1 and rng.random() < 0.2
             if not flat and segs[0]["k"] == "lit" and rng.random() < 0.35:
                 segs.append(dict(k="enum", n=rng.choice([1, 2, 3, 12])))
+            if flat and not is_sub and rng.random() < 0.15:      # a leaf whose literal name has several components ("ab/c") in a table without '#'
+                segs[0]["s"] = segs[0]["s"] + [47] + [ord(rng.choice(A))]
             types = dict(has=False, alts=[])
             if is_sub:
                 last = segs[-1]
